@@ -37,6 +37,7 @@ class FakeSocket:
         self.tx_pending = b""
         self.peer_gone = False
         self.pending_send_err = False
+        self.send_stuck = False  # after a 'send_timeout' fault: the peer's window stays closed, every further send times out
         self.dead = False  # a reset / broken-pipe error has been reported: the connection stays unusable
         self.world.sockets.append(self)
 
@@ -158,6 +159,8 @@ class World:
        'send_err'      the send call raises OSError, nothing delivered
        'send_partial'  the send call delivers 1 byte and the *next* send raises OSError
        'send_zero'     the send call returns 0
+       'reply_lost'    the pending reply is discarded and the recv call times out; the connection stays alive
+       'send_timeout'  the send call raises socket.timeout, and so does every later send on that socket (window closed for good)
        'recv_err'      the recv call raises OSError
        'recv_close'    the peer has vanished: this and later recv calls return b''
        'recv_trunc'    the recv call returns one byte less than available, then the peer is gone
@@ -276,6 +279,9 @@ class World:
             sock.pending_send_err = False
             sock.dead = True
             raise ConnectionResetError(104, "Connection reset by peer")
+        if fault == "send_timeout" or sock.send_stuck:
+            sock.send_stuck = True
+            raise _socket.timeout("timed out")
         if fault == "send_err":
             sock.dead = True
             raise BrokenPipeError(32, "Broken pipe")
@@ -333,6 +339,12 @@ class World:
             sock.pending_send_err = False
             sock.dead = True
             raise ConnectionResetError(104, "Connection reset by peer")
+        if fault == "reply_lost":
+            # the reply never arrives (the target did execute the request): this receive times out, the TCP connection stays usable
+            if hasattr(sock.ep, "note_lost"):
+                sock.ep.note_lost(bytes(sock.rx))
+            sock.rx.clear()
+            raise _socket.timeout("timed out")
         if fault == "recv_close":
             sock.peer_gone = True
             sock.rx.clear()
